@@ -94,6 +94,9 @@ fn mutators() -> Vec<String> {
     }
     m.push(format!("addo:{}", enc_text("a")));
     m.push(format!("addo:{}", enc_text(" a")));
+    // a line that starts with a multi-byte white space character (seeded change C09-m8: the
+    // ignore-space rule looked at the first BYTE only)
+    m.push(format!("add:{}", enc_text("\u{3000}a")));
     for n in 0..4 {
         m.push(format!("max:{}", n));
     }
@@ -184,7 +187,7 @@ pub fn gen(ctx: &GenCtx, sink: &mut dyn FnMut(String)) {
                         rng.pick(&added).clone()
                     } else {
                         let k = rng.below(5);
-                        (0..k).map(|_| *rng.pick(&['a', 'b', ' ', 'é', '\t', '漢', '\n'])).collect()
+                        (0..k).map(|_| *rng.pick(&['a', 'b', ' ', 'é', '\t', '漢', '\n', '\u{00A0}', '\u{3000}'])).collect()
                     };
                     added.push(l.clone());
                     format!("{}:{}", if rng.chance(1, 3) { "addo" } else { "add" }, enc_text(&l))
